@@ -37,7 +37,7 @@ pub struct St {
 
 //@@ loopstep: engine/see.rs :: fn see :: loop => #[allow(unused_assignments, unused_mut)] fn see_step(game: &Game, board: &Board, to: Square, st: St) -> (St, bool) ;; let St { mut score, mut victim, mut occupied, mut attackers, mut diagonal_sliders, mut orthorgonal_sliders, mut color } = st; let mut verif_iter = 0u8; ;; if verif_iter == 1 { return (St { score, victim, occupied, attackers, diagonal_sliders, orthorgonal_sliders, color }, false); } verif_iter += 1; ;; (St { score, victim, occupied, attackers, diagonal_sliders, orthorgonal_sliders, color }, true)
 
-//@@ prefix: engine/see.rs :: fn see :: loop { => #[allow(unused_assignments, unused_mut, unused_variables)] fn see_init(game: &Game, mv: Move, threshold: Eval) -> (St, Square) ;; (St { score, victim, occupied, attackers, diagonal_sliders, orthorgonal_sliders, color }, to)
+//@@ prefix-early: engine/see.rs :: fn see :: loop { => #[allow(unused_assignments, unused_mut, unused_variables)] fn see_init(game: &Game, mv: Move, threshold: Eval) ;; bool ;; (St, Square) ;; (St { score, victim, occupied, attackers, diagonal_sliders, orthorgonal_sliders, color }, to) ;; false
 
 fn val(k: PieceKind) -> i16 {
     match k {
@@ -177,14 +177,30 @@ fn vk_c20_loop_init() {
     };
     let t: i16 = kani::any();
     kani::assume(-1000 <= t && t <= 1000);
-    let (st, to_got) = see_init(&game, mv, Eval(t));
+    let r = see_init(&game, mv, Eval(t));
     let board = &game.board;
     let occ = (board.occupancy() & !from.bb()) | to.bb();
+    let score0 = val(captured.kind) + match promo { Some(p) => val(p.piece()) - 100, None => 0 } - t;
+    let (st, to_got) = match r {
+        Ok(x) => x,
+        Err(v) => {
+            // the function answered BEFORE reaching the exchange loop (no such path exists on the pinned tree).  Where the
+            // protocol's first iteration would stop at once -- the opponent is already behind the threshold, or has no
+            // attacker of the square once the capture has been made -- the early verdict must be the protocol's; where the
+            // exchange would go on, this obligation makes no claim (the whole-function obligations C20.undefended /
+            // winning_capture / defended_no_backup decide those)
+            let opp = movegen::all_attackers_of(board, to, occ) & occ & board.occupancy_for(game.player.other());
+            if score0 <= 0 || opp.is_empty() {
+                assert!(v == (score0 >= 0), "early verdict before the exchange loop disagrees with the exchange protocol");
+            }
+            return;
+        }
+    };
     kani::cover!(promo.is_some());
     kani::cover!(promo.is_none() && mover.kind == PieceKind::Queen);
     assert!(to_got == to);
     assert!(st.occupied == occ);
-    assert!(st.score.0 == val(captured.kind) + match promo { Some(p) => val(p.piece()) - 100, None => 0 } - t);
+    assert!(st.score.0 == score0);
     assert!(st.victim == match promo { Some(p) => p.piece(), None => mover.kind });
     assert!(st.color == game.player);
     assert!(st.attackers == movegen::all_attackers_of(board, to, occ) & occ);
